@@ -24,7 +24,7 @@ M=[ # (property, file under src/, old, new, description)
  ("C07","accountant/accountant.go","	_, err := ab.dag.GetVertex(string(vrxHash))\n	if err == nil {\n		return true, nil\n	}\n	return ab.checkVertexExistInStorage(vrxHash)","	_, err := ab.dag.GetVertex(string(vrxHash))\n	if err == nil {\n		return true, nil\n	}\n	return false, nil","checkVertexExists without the storage fall-back"),
  ("C08","accountant/accountant.go","		case <-ctx.Done():\n			drainWalker(vertices)\n			return nil, ErrLeafBallanceCalculationProcessStopped","		case <-ctx.Done():\n			return nil, ErrLeafBallanceCalculationProcessStopped","early return without draining the walker"),
  ("C08","accountant/accountant.go","func (ab *AccountingBook) truncate(ctx context.Context) error {\n	ab.mux.Lock()\n	defer ab.mux.Unlock()","func (ab *AccountingBook) truncate(ctx context.Context) error {\n	ab.mux.RLock()\n	defer ab.mux.RUnlock()","truncate under the read lock only"),
- ("C09","accountant/accountant.go","		if validVrx.Hash == addedHash {\n			break\n		}","		if validVrx.Hash == addedHash {\n			continue\n		}","break -> continue in the equal-parent guard (still fine) / edge loop"),
+ ("C09","accountant/accountant.go","			ab.dag.DeleteVertex(string(leaf.Hash[:]))\n			ab.removeTrxInVertex(leaf.Transaction.Hash[:])\n			ab.log.Error(\n				fmt.Sprintf(\n					\"Accounting book rejected leaf [ %v ] from [ %v ] referring to [ %v ] and [ %v ] when adding edge","			ab.removeTrxInVertex(leaf.Transaction.Hash[:])\n			ab.log.Error(\n				fmt.Sprintf(\n					\"Accounting book rejected leaf [ %v ] from [ %v ] referring to [ %v ] and [ %v ] when adding edge","edge roll-back leaves the vertex in the graph"),
  ("C09","accountant/vertex.go","	return max(leftWeight, rightWeight) + 1","	return min(leftWeight, rightWeight) + 1","calcNewWeight = min+1"),
  ("C09","accountant/accountant.go","	if err := ab.dag.AddVertexByID(string(leaf.Hash[:]), leaf); err != nil {","	if err := ab.dag.AddVertexByID(string(leaf.Transaction.Hash[:]), leaf); err != nil {","store the vertex under its transaction hash"),
  ("C10","accountant/accountant.go","	if trx.IssuerAddress == ab.signer.Address() {\n		return Vertex{}, ErrCannotTransferFoundsViaOwnedNode\n	}","	if trx.IssuerAddress == trx.ReceiverAddress {\n		return Vertex{}, ErrCannotTransferFoundsViaOwnedNode\n	}","compare the issuer with the receiver instead of the signer"),
@@ -35,7 +35,7 @@ M=[ # (property, file under src/, old, new, description)
  ("C12","gossip/gossip.go","	set := g.verifyGossipers([32]byte(tg.Trx.Hash), tg.Gossipers)\n	if _, ok := set[g.signer.Address()]; !ok {","	set := g.verifyGossipers([32]byte(tg.Trx.Hash), tg.Gossipers)\n	if len(tg.Gossipers) < 100 {","skip-self decision no longer uses the verified set"),
  ("C13","accountant/replier.go","	if m.repeated > maxRepeats {","	if m.repeated > maxRepeats+1 {","off-by-one on the retry bound"),
  ("C13","accountant/replier.go","	if len(b.members) == maxArraySize {\n		return ErrNotEnoughSpace\n	}\n","","capacity check removed"),
- ("C14","accountant/accountant.go","			if err := ab.dag.AddVertexByID(string(vrx.Hash[:]), vrx); err != nil {\n				cancelF(err)\n				return\n			}","			if err := ab.dag.AddVertexByID(string(vrx.Hash[:]), vrx); err != nil {\n				continue\n			}","duplicate vertex tolerated while loading"),
+ ("C14","accountant/accountant.go","		if err := ab.dag.AddVertexByID(string(vrx.Hash[:]), vrx); err != nil {\n			cancelF(err)\n			return\n		}","		if err := ab.dag.AddVertexByID(string(vrx.Hash[:]), vrx); err != nil {\n			continue\n		}","duplicate vertex tolerated while loading"),
  ("C14","accountant/accountant.go","	if ab.DagLoaded() {\n		cancelF(ErrDagIsLoaded)\n		return\n	}","	if ab.DagLoaded() {\n		cancelF(ErrDagIsLoaded)\n	}","already-loaded node loads again"),
  ("C15","gossip/gossip.go","	if len(vg.Hash) != 32 || len(vg.LeftParentHash) != 32 || len(vg.RightParentHash) != 32 || len(vg.Transaction.Hash) != 32 {","	if len(vg.Hash) != 32 || len(vg.LeftParentHash) != 32 || len(vg.Transaction.Hash) != 32 {","validateProtoVertex forgets the right parent"),
  ("C15","transformers/transaction.go","prTrx.ReceiverAddress == \"\" || len(prTrx.Hash) != 32 || prTrx.Spice == nil ||","prTrx.ReceiverAddress == \"\" || len(prTrx.Hash) != 32 ||","ProtoTrxToTrx forgets the nil spice"),
@@ -47,7 +47,6 @@ M=[ # (property, file under src/, old, new, description)
  ("C19","transformers/transaction.go","		CreatedAt:         time.Unix(0, int64(prTrx.CreatedAt)),","		CreatedAt:         time.Unix(int64(prTrx.CreatedAt), 0),","nanoseconds read as seconds"),
  ("C20","aeswrapper/aes.wrapper.go","	if len(data) < nonceSize {\n		return nil, ErrOpenDataFailure\n	}\n","","no length guard before slicing the nonce"),
  ("C02","spice/spice.go","			to.Currency += amount.Currency\n			from.Currency -= amount.Currency","			to.Currency += amount.Currency","Transfer forgets to debit the currency part"),
- ("C02","accountant/zz_none","","","(placeholder removed)"),
 ]
 N=[ # neutral edits: every check must stay at exit 0
  ("accountant/accountant.go","	validatedLeafs := make([]*Vertex, 0, 2)\n","	validatedLeafs := make([]*Vertex, 0, 2)\n	ab.log.Debug(\"validating the parents of an incoming leaf\")\n","add a log line"),
